@@ -131,6 +131,43 @@ func ruleNPos(w *World, r *Report) {
 		okInc := true
 		why := ""
 		nret := 0
+		// increments made by the iterator closures Select builds, on the way to
+		// each of their non-nil returns (the count may be kept there instead)
+		closureIncs, closuresAgree := -1, true
+		eachInstr(sfn, false, func(_ *ssa.Function, in ssa.Instruction) {
+			mc, ok := in.(*ssa.MakeClosure)
+			if !ok {
+				return
+			}
+			cf, ok := mc.Fn.(*ssa.Function)
+			if !ok || cf.Signature.Results().Len() != 1 || !w.isNavType(cf.Signature.Results().At(0).Type()) {
+				return
+			}
+			for _, b := range cf.Blocks {
+				ret, ok := normalReturn(b)
+				if !ok || isNilConst(strip(retVal(ret, 0))) {
+					continue
+				}
+				k := 0
+				for blk := b; blk != nil; {
+					for _, in2 := range blk.Instrs {
+						if st, ok := in2.(*ssa.Store); ok {
+							if f, ok := qtFieldAddr(st.Addr, qt.Named); ok && f == pf && isFieldStepT(st.Val, pf, token.ADD, qt.Named) {
+								k++
+							}
+						}
+					}
+					if len(blk.Preds) != 1 || blockIf(blk.Preds[0]) != nil {
+						break
+					}
+					blk = blk.Preds[0]
+				}
+				if closureIncs >= 0 && closureIncs != k {
+					closuresAgree = false
+				}
+				closureIncs = k
+			}
+		})
 		for _, b := range sfn.Blocks {
 			ret, ok := normalReturn(b)
 			if !ok || isNilConst(strip(retVal(ret, 0))) {
@@ -139,6 +176,14 @@ func ruleNPos(w *World, r *Report) {
 			nret++
 			// walk back through single-predecessor blocks to the test that produced the node
 			incs := 0
+			if c, ok := resolve(strip(retVal(ret, 0))).(*ssa.Call); ok && c.Call.StaticCallee() == nil && !c.Call.IsInvoke() && closureIncs > 0 {
+				// the node comes out of the iterator closure: what the closure counted
+				if !closuresAgree {
+					okInc = false
+					why = "the iterator closures do not agree on how often they increment " + pf.Name()
+				}
+				incs += closureIncs
+			}
 			for blk := b; blk != nil; {
 				for _, in := range blk.Instrs {
 					if st, ok := in.(*ssa.Store); ok {
@@ -246,8 +291,9 @@ func (w *World) checkStepTest(r *Report, variants map[string]map[string]bool) {
 				continue
 			}
 			var tf *ssa.Function
-			for _, fn := range qt.Methods {
-				if w.isPredicateFuncType(fn.Signature) && fn.Signature.Recv() != nil {
+			tname := w.testMethodName()
+			for name, fn := range qt.Methods {
+				if w.isPredicateFuncType(fn.Signature) && fn.Signature.Recv() != nil && (tname == "" || name == tname) {
 					tf = fn
 				}
 			}
@@ -634,4 +680,27 @@ func (w *World) reverseByInterp(fn *ssa.Function) (drained, order bool, why stri
 		}
 	}
 	return drained, order, why
+}
+
+// testMethodName: the name of the node-test method step queries are asked
+// for: the single method, of predicate signature, of an interface some
+// run-time code asserts a query to.
+func (w *World) testMethodName() string {
+	name := ""
+	for _, fn := range w.AllFuncs {
+		eachInstr(fn, false, func(_ *ssa.Function, in ssa.Instruction) {
+			ta, ok := in.(*ssa.TypeAssert)
+			if !ok {
+				return
+			}
+			it, ok := ta.AssertedType.Underlying().(*types.Interface)
+			if !ok || it.NumMethods() != 1 {
+				return
+			}
+			if sig, ok := it.Method(0).Type().(*types.Signature); ok && w.isPredicateFuncType(sig) {
+				name = it.Method(0).Name()
+			}
+		})
+	}
+	return name
 }
